@@ -608,7 +608,7 @@ func splitLast(v interp.Value, sep string) (interp.Value, interp.Value, bool) {
 }
 
 // FindLabel resolves a label operand among the definitions; nil if it is
-// (for every model) not defined. Model-dependent aliasing is inconclusive.
+// not defined. Aliasing that depends on the model is decided by forking.
 func (ag *AsmGraph) FindLabel(c *interp.Ctx, name interp.Value) *AsmLine {
 	var found *AsmLine
 	for _, d := range ag.LabelDef {
@@ -619,7 +619,11 @@ func (ag *AsmGraph) FindLabel(c *interp.Ctx, name interp.Value) *AsmLine {
 			}
 		case 0:
 		case -1:
-			panic(interp.Inconclusive{Msg: "label aliasing depends on the model: " + interp.ToString(name) + " vs " + interp.ToString(d.Name)})
+			// the two names coincide for some values only: a fork of the oracle
+			// (both situations are explored)
+			if decideSame(c, d.Name, name) && found == nil {
+				found = d
+			}
 		default:
 			panic(interp.Inconclusive{Msg: "solver unknown while resolving a label"})
 		}
